@@ -361,10 +361,13 @@ def c08(tokens, norm_src: str) -> str | None:
                     k = a
                     while k > 0 and src[k - 1] == "\\":
                         k -= 1
-                    if (a - k) % 2:
-                        a += 1
+                    # with the escape rule disabled a backslash escapes nothing: the raw run opens too
                     if b - a == len(m):
                         openers.append(b)
+                    if (a - k) % 2:
+                        a += 1
+                        if b - a == len(m):
+                            openers.append(b)
                 closers = [a for a, b in runs if b - a == len(m)]
                 for st in openers:
                     for a in closers:
